@@ -3,6 +3,7 @@ from __future__ import annotations
 
 import collections
 import importlib
+import json
 import subprocess
 from concurrent.futures import ThreadPoolExecutor
 from pathlib import Path
@@ -52,7 +53,7 @@ def gen_string(r) -> str:
 
 VOCAB_COMMON = ["--", "-", "-x", "--foo=bar", "A=1", "ls", "rm", "x y", "", "{}", ";", "+", "5", "file", "it's", "#", "FOO=1", "-h", "--help"]
 VOCAB = {
-    "shell": ["-c", "-lc", "-cl", "-xec", "--norc", "-o", "pipefail", "ls -la", "rm x", "--c", "-e", "script.sh", "+c"],
+    "shell": ["-c", "-lc", "-cl", "-xec", "--norc", "-o", "pipefail", "ls -la", "rm x", "--c", "-e", "script.sh", "+c", "--rcfile", "--init-file", "-eo", "+O", "-O", "extglob", "+o", "+x", "./x.sh", "-eo-", "-o-", "+", "-oc", "+oc", "--posix"],
     "env": ["-S", "-Sls", "-S ls", "--split-string=ls -la", "--split-string", "--split-string=", "-i", "-u", "--unset", "--unset=X", "-C", "--chdir", "/tmp", "-iS", "-v", "  ", "-vu", "-vuX", "-iu", "-vvu", "-iC", "-iC/tmp", "-vS", "-vSls -la", "-uS", "-uCC", "-0", "-i0", "-Su", "-x", "-xu", "-ixuX", "--unset", "X", "-CS", "-"],
     "xargs": ["-n", "-n1", "-I", "-I{}", "-0", "-r", "-t", "--max-args=1", "-P", "-d", "-E", "-e", "-l", "-L", "-a", "-p", "-o", "--interactive", "--open-tty", "--interactive=x", "-ap", "-s", "--eof", "--replace", "-i", "-rn", "-rn1", "-rt", "-rp", "-to", "-tp", "-rts", "4096", "-rE", "EOF", "-rEx", "-tI{}", "-Ipo", "-np", "-pn", "-r0", "-0n1", "-xrn", "--", "-x"],
     "find": [".", "-name", "*.py", "-exec", "-execdir", "-ok", "-okdir", "-delete", "-print", "-o", "-type", "f"],
@@ -62,7 +63,7 @@ VOCAB = {
     "uvrun": ["run", "--python", "-p", "3.12", "--with", "pkg", "--project", ".", "-m", "--script", "--no-project", "--", "--env-file", ".env", "--with=x", "python", "-q"],
     "tar": ["-tf", "a.tar", "-xf", "-czf", "tf", "xvf", "cf", "--list", "--extract", "--delete", "--to-command", "--to-command=cat", "--to-command=", "--use-compress-program=gzip", "--use-compress-program", "-I", "zstd", "-F", "--checkpoint-action=exec=x",
             "--rsh-command=ssh", "--info-script", "-C", "/tmp", "-v", "--get", "--append", "-r", "-u", "-tvf", "-O", "--to-command=rm x", "ls", "--create"],
-    "script": ["-t", "-T", "-a", "-d", "-e", "-F", "-k", "-p", "-q", "-r", "-ap", "--foo", "out.txt", "/dev/null", "--p"],
+    "script": ["-t", "-T", "-a", "-d", "-e", "-F", "-k", "-p", "-q", "-r", "-ap", "--foo", "out.txt", "/dev/null", "--p", "-c", "-qc", "--command", "-qt", "-t5", "-qt5", "-tq", "-qTa", "-E", "-qx", "-aq", "rm x"],
 }
 
 
@@ -147,6 +148,18 @@ def corr_handlers(model, r, n):
     import dippy.cli.docker as D
     import dippy.cli.kubectl as K
 
+    # kubectl: which command lines are an exec at all (the action is the first word that is neither a flag nor a flag's value)
+    from dippy.core.bash import bash_join
+
+    kvoc = ["exec", "get", "config", "view", "rollout", "status", "--user", "--as", "--kubeconfig", "-s", "--server", "-n", "--namespace", "ns", "-v", "--token", "--context", "--insecure-skip-tls-verify",
+            "--user=x", "-it", "-c", "pod", "--", "ls", "rm", "x y", "-o", "json", "--request-timeout", "5s", "-", "--v", "delete", "auth", "can-i"]
+    items = [["kubectl"] + [r.pick(kvoc) for _ in range(r.randint(0, 8))] for _ in range(n // 2)]
+    reps = model.batch([{"op": "kubectl_delegates", "tokens": t} for t in items])
+    for toks, rep in zip(items, reps):
+        c = K.classify(HandlerContext(toks))
+        impl = c.inner_command if c.action == "delegate" else None
+        mod = bash_join(rep) if isinstance(rep, list) else rep
+        acc.case(["kubectl action", toks], impl, mod, nontrivial=impl is not None, tag="kubectl-action:" + c.action)
     voc = ["--", "-it", "-i", "-t", "-e", "A=1", "-eA=1", "--env", "--env=A=1", "-w", "/tmp", "-u", "root", "-uroot", "-itu", "-itw", "--user=root", "--detach-keys", "x", "--privileged", "c1", "pod", "ls", "rm", "x y", "-c", "container", "-n", "ns", "--", "sh", "-d"]
     items = [(r.pick(["docker", "kubectl"]), [r.pick(voc) for _ in range(r.randint(0, 7))]) for _ in range(n // 2)]
     reps = model.batch([{"op": "execinner", "name": m, "tokens": t} for m, t in items])
@@ -276,6 +289,24 @@ def forms(r, c):
     ]
     for lab, t in nojail:
         yield lab, t, False, False, None
+    # decoys: an approvable command sits where a careless option scan would look for the inner command, while the
+    # launcher really runs something else (the reference argv after "ref=")
+    ref = lambda argv: "ref=" + json.dumps(argv)  # noqa: E731
+    decoys = [
+        ("bash SCRIPT -c decoy", "bash ./x.sh -c ls", ["./x.sh", "-c", "ls"]), ("sh SCRIPT -c decoy", "sh -e run.sh -c 'ls -la'", ["./run.sh"]), ("bash -- -c decoy", "bash -- -c ls", ["./-c", "ls"]),
+        ("bash -o OPT SCRIPT", "bash -o errexit x.sh -c ls", ["./x.sh"]), ("bash --rcfile F SCRIPT", "bash --rcfile rc x.sh -c ls", ["./x.sh"]),
+        ("script -c (util-linux)", "script -c " + sq(cs) + " ls", c), ("script -qc", "script -qc " + sq(cs) + " /dev/null ls", c), ("script --command", "script --command " + sq(cs) + " ls", c),
+        ("script -qt N file", "script -qt 5 ls " + cs, c), ("script -t N file", "script -t 5 ls " + cs, c),
+        ("uv run --env-file decoy", "uv run --env-file ls " + cs, c), ("uv run --index decoy", "uv run --index ls " + cs, c), ("uv run --config-file decoy", "uv run --config-file ls " + cs, c), ("uv run -C decoy", "uv run -C ls " + cs, c),
+        ("kubectl --user decoy exec", "kubectl --user get exec pod -- " + cs, c), ("kubectl --kubeconfig decoy exec", "kubectl --kubeconfig get exec pod -- " + cs, c), ("kubectl -s decoy exec", "kubectl -s get exec pod -- " + cs, c),
+        ("kubectl --as decoy exec", "kubectl --as get exec -it pod -- " + cs, c),
+        ("tar -c --to-command decoy", "tar -cf /tmp/x.tar --to-command=" + sq("ls") + " /etc", ["tar", "-cf", "/tmp/x.tar", "/etc"]), ("tar -r --to-command decoy", "tar -rf x.tar --to-command ls f", ["tar", "-rf", "x.tar", "f"]),
+        ("tar --delete --to-command decoy", "tar --delete -f x.tar --to-command=ls f", ["tar", "--delete", "-f", "x.tar", "f"]),
+        ("fzf 2 actions paren+colon", "fzf --bind " + sq("enter:execute(ls),ctrl-x:execute:" + cs), c), ("fzf 2 actions chained", "fzf --bind " + sq("enter:execute(ls)+execute-silent(" + cs + ")"), c),
+        ("fzf 2 actions colon last", "fzf --bind " + sq("ctrl-a:become(ls),enter:become:" + cs), c), ("fzf 2 binds", "fzf --bind " + sq("a:execute(ls)") + " --bind " + sq("b:execute(" + cs + ")"), c),
+    ]
+    for lab, t, argv in decoys:
+        yield lab, t, False, False, ref(argv)
     # the command text is computed by the inner shell: nothing to compare with, only to run
     yield "bash -c \"$0\" (jail only)", "bash -c '\"$0\" \"$@\"' " + cs, False, True, "nomono"
     yield "xargs -e (finding)", "echo a | xargs -e " + cs, False, True, "F04d"
@@ -368,14 +399,26 @@ def search(ctx):
             stats["verdict:" + dw.action] += 1
             bad = None
             dc_local = dc
+            ref_argv = c
+            decoy = False
             if ftag and ftag.startswith("inner+="):
-                dc = analyze(bash_join(c + [ftag[len("inner+="):]]), cfg, Path(CWD))
+                ref_argv = c + [ftag[len("inner+="):]]
+                dc = analyze(bash_join(ref_argv), cfg, Path(CWD))
                 ftag = None
+            if ftag and ftag.startswith("ref="):
+                ref_argv = json.loads(ftag[4:])
+                dc = analyze(bash_join(ref_argv), cfg, Path(CWD))
+                ftag = None
+                stats["decoy_forms"] += 1
+                decoy = True
             if lab.split(" ")[0] in ("docker", "podman", "kubectl"):
                 # inside a container the inner command's *local-path* checks do not apply (property C13): the reference is
                 # the inner command judged in remote mode
-                dc = analyze(bash_join(c), cfg, Path(CWD), remote=True)
+                dc = analyze(bash_join(ref_argv), cfg, Path(CWD), remote=True)
             if ftag == "nomono":
+                pass
+            elif decoy and dw.action != "allow":
+                # an option spelling the handler declines to take apart: the user is asked, which is all that can be required
                 pass
             elif RANK[dw.action] < RANK[dc.action]:
                 bad = "wrapped command judged more leniently (%s) than the command itself (%s: %s)" % (dw.action, dc.action, dc.reason)
